@@ -215,6 +215,24 @@ impl Script<'_> {
 
     /// The victim commits: build and apply under fault enumeration.
     fn victim_commit(&mut self, flags: u16) -> CaseResult {
+        // sometimes another member has proposed an external PSK by reference: the victim's commit then consults the PSK
+        // store for a cached proposal as well
+        if flags & 4 != 0 {
+            if let Some(o) = self.others().first().copied() {
+                for p in 0..self.w.parties.len() {
+                    self.w.parties[p].pstore.put(b"psk\x00", &[1; 32]);
+                }
+                let party = &mut self.w.parties[o];
+                match guard(|| party.gm().propose_external_psk(mls_rs::psk::ExternalPskId::new(b"psk\x00".to_vec()), vec![])) {
+                    Ok(m) => {
+                        self.w.push_proposal(o, m, vec![]).map_err(|e| setup_failure(P, "encode", &e))?;
+                        self.ev.class("victim_commits_with_cached_psk_proposal");
+                    }
+                    Err(e) if e.is_panic() => return Err(panic_failure(P, "propose_external_psk", &e)),
+                    Err(_) => {}
+                }
+            }
+        }
         self.w.flush(0)?;
         let t = self.w.tick();
         let epoch = self.w.epoch;
@@ -234,8 +252,15 @@ impl Script<'_> {
             b.build()
         })?;
         let bytes = out.commit_message.to_bytes().expect("enc");
-        // the pending commit must survive every failed attempt to apply it
-        self.faulted("apply_pending_commit", Kind::Deterministic, |g| g.apply_pending_commit().map(|_| ()))?;
+        // the pending commit must survive every failed attempt to apply it: either through apply_pending_commit, or by
+        // processing the echo of the own commit as it comes back from the delivery service
+        if flags & 8 != 0 {
+            let echo = bytes.clone();
+            self.faulted("process_incoming_message(own commit echoed)", Kind::Deterministic, |g| g.process_incoming_message_with_time(MlsMessage::from_bytes(&echo)?, t).map(|_| ()))?;
+            self.ev.class("own_commit_applied_through_its_echo");
+        } else {
+            self.faulted("apply_pending_commit", Kind::Deterministic, |g| g.apply_pending_commit().map(|_| ()))?;
+        }
         for m in self.others() {
             self.w.process(m, &bytes).map_err(|e| {
                 if e.is_panic() {
@@ -251,9 +276,19 @@ impl Script<'_> {
     }
 
     fn write(&mut self) -> CaseResult {
+        self.write_with(false)
+    }
+
+    /// `tree_less`: the application keeps the ratchet tree elsewhere and uses the tree-less write / load pair.
+    fn write_with(&mut self, tree_less: bool) -> CaseResult {
         let v = self.victim;
         let pending_ids = snap(&self.w, v)?.prior_insert_ids();
-        self.faulted("write_to_storage", Kind::Write, |g| g.write_to_storage())?;
+        if tree_less {
+            self.faulted("write_to_storage_without_ratchet_tree", Kind::Write, |g| g.write_to_storage_without_ratchet_tree())?;
+            self.ev.class("tree_less_writes");
+        } else {
+            self.faulted("write_to_storage", Kind::Write, |g| g.write_to_storage())?;
+        }
         {
             let gid = self.w.group_id.clone();
             let stored = self.w.parties[v].gstore.retrievable(&gid);
@@ -274,7 +309,12 @@ impl Script<'_> {
         let party = &self.w.parties[v];
         let loaded = {
             let _s = party.ctl.suspend();
-            guard(|| party.client.load_group(&gid)).map_err(|e| fail(&format!("load_after_write_failed|{}", e.class()), e.text().into()))?
+            if tree_less {
+                let tree = party.g().export_tree().to_bytes().expect("tree");
+                guard(|| party.client.load_group_with_ratchet_tree(&gid, ExportedTree::from_bytes(&tree)?)).map_err(|e| fail(&format!("load_after_write_failed|{}", e.class()), e.text().into()))?
+            } else {
+                guard(|| party.client.load_group(&gid)).map_err(|e| fail(&format!("load_after_write_failed|{}", e.class()), e.text().into()))?
+            }
         };
         let a = snap(&self.w, v)?;
         let b = snap_group(party, &loaded)?;
@@ -424,7 +464,7 @@ fn run_case(case: &Case, ev: &Evidence, pairs: bool) -> CaseResult {
     for op in &case.ops {
         let r: CaseResult = (|| {
             match pick_weighted(op[0], &[18, 22, 16, 10, 12, 8, 8, 6]) {
-                0 => s.write(),
+                0 => s.write_with(op[2] % 3 == 0),
                 1 => s.other_commit(op[1], op[2]),
                 2 => s.victim_commit(op[2]),
                 3 => {
